@@ -43,6 +43,8 @@ FORM_QUERY = '''
      WHERE e.id = ?
        AND e.lexicon_rowid = ?
        AND (f.id = ? OR (f.rank = ? AND f.lexicon_rowid = ?))
+     ORDER BY f.lexicon_rowid = ? DESC  -- the lexicon's own form first
+     LIMIT 1
 '''
 SENSE_QUERY = '''
     SELECT s.rowid
@@ -606,7 +608,7 @@ def _insert_pronunciations(
     progress.set(status='Pronunciations')
     query = f'INSERT INTO pronunciations VALUES (({FORM_QUERY}),?,?,?,?,?)'
     for batch in _batch(entries):
-        prons: list[tuple[str, int, Optional[str], int, int,
+        prons: list[tuple[str, int, Optional[str], int, int, int,
                           str, Optional[str], Optional[str],
                           bool, Optional[str]]] = []
         for entry in batch:
@@ -615,7 +617,7 @@ def _insert_pronunciations(
             if entry.get('lemma'):
                 for p in entry['lemma'].get('pronunciations', []):
                     prons.append(
-                        (eid, lid, None, 0, lid,
+                        (eid, lid, None, 0, lid, lid,
                          p['text'], p.get('variety'), p.get('notation'),
                          p.get('phonemic', True), p.get('audio'))
                     )
@@ -624,7 +626,7 @@ def _insert_pronunciations(
                 rank = -1 if _is_external(form) else i
                 for p in form.get('pronunciations', []):
                     prons.append(
-                        (eid, lid, form.get('id'), rank, lexid,
+                        (eid, lid, form.get('id'), rank, lexid, lexid,
                          p['text'], p.get('variety'), p.get('notation'),
                          p.get('phonemic', True), p.get('audio'))
                     )
@@ -642,19 +644,19 @@ def _insert_tags(
     progress.set(status='Word Form Tags')
     query = f'INSERT INTO tags VALUES (({FORM_QUERY}),?,?)'
     for batch in _batch(entries):
-        tags: list[tuple[str, int, Optional[str], int, int, str, str]] = []
+        tags: list[tuple[str, int, Optional[str], int, int, int, str, str]] = []
         for entry in batch:
             eid = entry['id']
             lid = lexidmap.get(eid, lexid)
             if entry.get('lemma'):
                 for tag in entry['lemma'].get('tags', []):
-                    tags.append((eid, lid, None, 0, lid, tag['text'], tag['category']))
+                    tags.append((eid, lid, None, 0, lid, lid, tag['text'], tag['category']))
             for i, form in enumerate(_forms(entry), 1):
                 # rank is not valid in FORM_QUERY for external forms
                 rank = -1 if _is_external(form) else i
                 for tag in form.get('tags', []):
                     tags.append(
-                        (eid, lid, form.get('id'), rank, lexid,
+                        (eid, lid, form.get('id'), rank, lexid, lexid,
                          tag['text'], tag['category'])
                     )
         cur.executemany(query, tags)
